@@ -74,6 +74,10 @@ DirSort = z3.ArraySort(S, B)        # directory id -> exists
 LockSort = z3.ArraySort(S, I)       # identifier -> number of times it is in the locked list
 NOLOCKS = z3.K(S, z3.IntVal(0))
 
+# number of lines of a line file (with multiplicity): only these facts are used
+card = z3.Function("card", Lines, I)
+trusted("card", "cardinality of a line multiset: >= 0, 0 exactly for the empty multiset, "
+        "card(m[k := v]) = card(m) - m[k] + v")
 # text <-> lines coercions for files read in the "wrong" way (only reachable after type confusion)
 rawOf = z3.Function("rawOf", Lines, S)
 linesOfRaw = z3.Function("linesOfRaw", S, Lines)
@@ -255,6 +259,13 @@ class Axioms:
             add(z3.Not(hasws(t)))
         elif n == "dlen":
             add(t >= 1)
+        elif n == "card":
+            m = t.arg(0)
+            add(t >= 0)
+            add((t == 0) == (m == NOLINES))
+            if z3.is_app(m) and m.decl().kind() == z3.Z3_OP_STORE:
+                b, k, v = m.arg(0), m.arg(1), m.arg(2)
+                add(t == card(b) - z3.Select(b, k) + v)
         elif n == "rawOf":
             # the text of a line file is empty exactly when it has no line, and otherwise ends with
             # the newline of its last line
